@@ -17,12 +17,11 @@ echo "== changed: $CHANGED" | tee $OUT/confirm.log
 RUNDEMO="go test -count=1 -run Seeded -timeout 10m ."
 [ -d seeded_demo ] && RUNDEMO="go run ./seeded_demo"
 ( $RUNDEMO ) > $OUT/demo_with.log 2>&1; W=$?; echo "demo WITH change rc=$W (expect non-zero)" | tee -a $OUT/confirm.log
-git stash -q -- $CHANGED
+git apply -R $OUT/patch.diff
 ( $RUNDEMO ) > $OUT/demo_without.log 2>&1; WO=$?; echo "demo WITHOUT change rc=$WO (expect 0)" | tee -a $OUT/confirm.log
-git stash pop -q
+git apply $OUT/patch.diff
 cd /verif
 ( VERIF_REPO=$WT ./check $PROP quick ) > $OUT/check.log 2>&1; RC=$?
 grep -h "VIOLATION\|KNOWN-FINDING" $OUT/check.log | cut -c1-300 | tee -a $OUT/confirm.log
 echo "check $PROP quick against seeded tree: exit $RC" | tee -a $OUT/confirm.log
-./check $PROP quick > $OUT/check_clean.log 2>&1; echo "check $PROP quick against /repo afterwards: exit $?" | tee -a $OUT/confirm.log
 rm -rf /verif/harness/.alt-* /verif/harness/bin/*-alt-*
